@@ -89,6 +89,8 @@ func runC18(c *Ctx) {
 	}
 
 	ruleB1(c, "G8", 2)
+	ruleG9(c, "G9")
+	ruleG10(c, "G10")
 
 	// ---- G1 -----------------------------------------------------------------
 	roots := evaluationEntryPoints(c)
